@@ -6,6 +6,8 @@ package gobinlog
 // properties C04 (write-back), C05 (sequential fragment), C06, C07, C08 (private copy of each packet).
 
 import (
+	"context"
+
 	"github.com/Breeze0806/gobinlog/internal/vspec"
 	"github.com/Breeze0806/gobinlog/replication"
 )
@@ -53,4 +55,257 @@ func vc_slaveConnection_readBinlogEvent_ensures_reason(s *slaveConnection, ev re
 		return rerr != nil && rerr.ori == s.dc.HandleErrorPacket(buf)
 	}
 	return rerr == nil
+}
+
+// ---- the reader goroutine: startDumpFromBinlogPosition's function literal ----
+// Ghost state of the two channels it owns as sender and closer.
+
+var (
+	vcErrSends   int    // values sent on errChan
+	vcErrClosed  bool   // errChan closed
+	vcEvClosed   bool   // eventChan closed
+	vcChanOrder  bool   // every channel operation so far happened in a permitted state
+	vcLastReason *Error // the value sent on errChan
+)
+
+func vc_hook_entry_slaveConnection_startDumpFromBinlogPosition_func1() {
+	vcErrSends = 0
+	vcErrClosed = false
+	vcEvClosed = false
+	vcChanOrder = true
+	vcLastReason = nil
+}
+
+// the error channel is buffered for exactly one value and this goroutine is its only sender and closer
+func vc_slaveConnection_startDumpFromBinlogPosition_func1_requires(s *slaveConnection, ctx context.Context) bool {
+	return s != nil && s.dc != nil && ctx != nil && cap(s.errChan) == 1
+}
+
+// a send on errChan never blocks: nothing was sent before and the buffer holds one value
+func vc_chan_send_ok_errChan(s *slaveConnection) bool {
+	return vcErrSends == 0 && !vcErrClosed && cap(s.errChan) == 1
+}
+func vc_hook_chan_send_errChan(v *Error) {
+	vcErrSends = vcErrSends + 1
+	vcLastReason = v
+}
+
+// the reason is published before the error channel is closed, and that before the event channel is closed
+func vc_chan_close_ok_errChan() bool   { return !vcErrClosed && vcErrSends == 1 }
+func vc_hook_chan_close_errChan()      { vcErrClosed = true }
+func vc_chan_close_ok_eventChan() bool { return !vcEvClosed && vcErrClosed }
+func vc_hook_chan_close_eventChan()    { vcEvClosed = true }
+
+func vc_slaveConnection_startDumpFromBinlogPosition_func1_loop1_inv() bool {
+	return vcErrSends == 0 && !vcErrClosed && !vcEvClosed
+}
+
+// C05 (b): on every exit exactly one reason was sent, then errChan closed, then eventChan closed
+func vc_slaveConnection_startDumpFromBinlogPosition_func1_ensures_channels() bool {
+	return vcErrSends == 1 && vcErrClosed && vcEvClosed && vcLastReason != nil
+}
+
+// C06: the reason sent is the error that ended the reading, or the context's error on the cancel path
+func vc_slaveConnection_startDumpFromBinlogPosition_func1_ensures_reason(err *Error, ctx context.Context) bool {
+	if err != nil {
+		return vcLastReason == err
+	}
+	return vcLastReason != nil && vcLastReason.ori == ctx.Err()
+}
+
+// ---- call trace on the dumpConn (C05 (a), C07): ghost record of the calls made on the connection ----
+
+var (
+	vcExecs      int    // Exec calls
+	vcExecSQL    string // statement of the last Exec
+	vcDumps      int    // NoticeDump calls
+	vcDumpServer uint32
+	vcDumpOffset uint32
+	vcDumpFile   string
+	vcDumpFlags  uint16
+	vcDumpExecs  int // Exec calls made before the (last) NoticeDump
+	vcCloses     int // Close calls
+	vcReads      int // ReadPacket calls made by the function under contract itself
+)
+
+func vc_hook_iface_dumpConn_Exec(sql string) {
+	vcExecs = vcExecs + 1
+	vcExecSQL = sql
+}
+func vc_hook_iface_dumpConn_NoticeDump(serverID uint32, offset uint32, filename string, flags uint16) {
+	vcDumps = vcDumps + 1
+	vcDumpServer = serverID
+	vcDumpOffset = offset
+	vcDumpFile = filename
+	vcDumpFlags = flags
+	vcDumpExecs = vcExecs
+}
+func vc_hook_iface_dumpConn_Close()      { vcCloses = vcCloses + 1 }
+func vc_hook_iface_dumpConn_ReadPacket() { vcReads = vcReads + 1 }
+
+// ---- newSlaveConnection ----
+
+func vc_hook_entry_newSlaveConnection() {
+	vcExecs = 0
+	vcCloses = 0
+	vcDumps = 0
+	vcReads = 0
+}
+
+func vc_newSlaveConnection_requires(dumpConn func() (dumpConn, error)) bool { return dumpConn != nil }
+
+// C07: checksum awareness is announced (exactly one Exec, with exactly this statement) and nothing is read or dumped
+// yet; C05: the error channel holds one value; on failure after a connection was obtained it is closed exactly once
+func vc_newSlaveConnection_ensures_handshake(dumpConn func() (dumpConn, error), out *slaveConnection, err *Error) bool {
+	if err != nil {
+		return out == nil && vcDumps == 0 && vcReads == 0 && vcCloses == vcExecs
+	}
+	return out != nil && out.dc != nil && out.errChan != nil && cap(out.errChan) == 1 &&
+		vcExecs == 1 && vcExecSQL == "SET @master_binlog_checksum=@@global.binlog_checksum" &&
+		vcDumps == 0 && vcReads == 0 && vcCloses == 0
+}
+
+func vc_newSlaveConnection_modifies_ghost() {
+	vcExecs, vcCloses, vcDumps, vcReads, vcExecSQL = 0, 0, 0, 0, ""
+}
+
+// ---- startDumpFromBinlogPosition ----
+
+var vcReaderStarted bool
+
+func vc_hook_go_startDumpFromBinlogPosition_func1() { vcReaderStarted = true }
+
+func vc_hook_entry_slaveConnection_startDumpFromBinlogPosition() {
+	vcDumps = 0
+	vcReads = 0
+	vcReaderStarted = false
+}
+
+// offsets of binlog positions fit the protocol's 32-bit field (C07's quantifier: 4..2^32-1)
+func vc_slaveConnection_startDumpFromBinlogPosition_requires(s *slaveConnection, ctx context.Context, serverID uint32, pos Position) bool {
+	return s != nil && s.dc != nil && pos.Offset >= 0 && pos.Offset <= 0xffffffff
+}
+
+// C07: exactly one blocking dump request with the server id, file and offset given; nothing read before it;
+// the reader is started only after a successful request
+func vc_slaveConnection_startDumpFromBinlogPosition_ensures_request(s *slaveConnection, ctx context.Context, serverID uint32, pos Position, out <-chan replication.BinlogEvent, err *Error) bool {
+	return vcDumps == 1 && vcReads == 0 &&
+		vcDumpServer == serverID && int64(vcDumpOffset) == pos.Offset && vcDumpFile == pos.Filename && vcDumpFlags == 0 &&
+		vcReaderStarted == (err == nil) && (err != nil || out != nil)
+}
+
+func vc_slaveConnection_startDumpFromBinlogPosition_modifies_ghost() {
+	vcDumps, vcReads, vcReaderStarted = 0, 0, false
+	vcDumpServer, vcDumpOffset, vcDumpFile, vcDumpFlags, vcDumpExecs = 0, 0, "", 0, 0
+}
+
+// ---- the streamer's stored position: a ghost mirror of the atomic.Value field nowPos ----
+// SetBinlogPosition / binlogPosition are its only accessors; atomic.Value's contract (Load returns what the last
+// Store stored) is assumed through these two trusted contracts.
+
+var (
+	vcNowPos  Position // what nowPos holds
+	vcNowPos0 Position // what it held when Stream was entered
+	vcParsed  bool     // parseEvents was called
+	vcDumped  bool     // startDumpFromBinlogPosition was called
+)
+
+func vc_Streamer_SetBinlogPosition_trusted()                                 {}
+func vc_hook_call_Streamer_SetBinlogPosition(s *Streamer, startPos Position) { vcNowPos = startPos }
+func vc_Streamer_binlogPosition_trusted()                                    {}
+func vc_Streamer_binlogPosition_ensures_mirror(s *Streamer, out Position) bool {
+	return out == vcNowPos
+}
+
+func vc_hook_call_Streamer_parseEvents(s *Streamer, ctx context.Context, events <-chan replication.BinlogEvent) {
+	vcParsed = true
+}
+func vc_Streamer_parseEvents_modifies_ghost() {
+	vcAcc, vcOpen, vcBuf, vcCalled, vcGood, vcDelivered = Position{}, false, 0, false, false, 0
+}
+func vc_hook_call_slaveConnection_startDumpFromBinlogPosition(s *slaveConnection, ctx context.Context, serverID uint32, pos Position) {
+	vcDumped = true
+}
+
+// ---- Stream ----
+
+func vc_hook_entry_Streamer_Stream(s *Streamer) {
+	vcNowPos0 = vcNowPos
+	vcParsed = false
+	vcDumped = false
+	vcCloses = 0
+	vcCancelled = false
+	vcReaderStarted = false
+}
+
+func vc_Streamer_Stream_requires(s *Streamer, ctx context.Context, sendTransaction SendTransactionFunc) bool {
+	return s != nil && s.tableMapper != nil && ctx != nil && sendTransaction != nil &&
+		vcNowPos.Offset >= 0 && vcNowPos.Offset <= 0xffffffff
+}
+
+// C04: the position kept for the next attempt is the boundary after the last accepted transaction of this attempt;
+// attempts that fail before parsing leave it untouched
+func vc_Streamer_Stream_ensures_writeback(s *Streamer, ctx context.Context, sendTransaction SendTransactionFunc, res error) bool {
+	if vcParsed {
+		return vcNowPos == vcAcc
+	}
+	return vcNowPos == vcNowPos0
+}
+
+// C07: checksum awareness first, then exactly one blocking dump request carrying the configured server id and
+// the stored position
+func vc_Streamer_Stream_ensures_request(s *Streamer, ctx context.Context, sendTransaction SendTransactionFunc, res error) bool {
+	if !vcDumped {
+		return !vcParsed
+	}
+	return vcExecs == 1 && vcExecSQL == "SET @master_binlog_checksum=@@global.binlog_checksum" &&
+		vcDumps == 1 && vcDumpServer == s.serverID && vcDumpFlags == 0 &&
+		vcDumpFile == vcNowPos0.Filename && int64(vcDumpOffset) == vcNowPos0.Offset
+}
+
+// C05 (a): once a connection exists it is closed exactly once before Stream returns
+func vc_Streamer_Stream_ensures_closed(s *Streamer, ctx context.Context, sendTransaction SendTransactionFunc, res error, conn *slaveConnection) bool {
+	if conn == nil {
+		return vcCloses == 0 || !vcDumped
+	}
+	return vcCloses == 1
+}
+
+// C06: a failure of the parser (handler, decode, lookup) or of the set-up is reported
+func vc_Streamer_Stream_ensures_report(s *Streamer, ctx context.Context, sendTransaction SendTransactionFunc, res error, err *Error) bool {
+	return (res == nil) == (err == nil)
+}
+
+// ---- Error ----
+
+func vc_Streamer_Error_requires(s *Streamer) bool { return s != nil && s.ctx != nil }
+
+// C05 (d): the receive must not be on a nil channel (it would block forever)
+func vc_chan_recv_ok_errChan(s *Streamer) bool { return s.errChan != nil }
+
+// C06: nil only for a closed channel, a cancellation or the master's EOF; otherwise the reason itself
+func vc_Streamer_Error_ensures_filter(s *Streamer, res error, err *Error, ok bool) bool {
+	if !ok {
+		return res == nil
+	}
+	if err.ori == context.Canceled || err.ori == errStreamEOF {
+		return res == nil
+	}
+	return res != nil
+}
+
+// channel value invariant of errChan: the reader only ever sends a non-nil reason (proved in the reader's unit:
+// ensures_channels), assumed where it is received
+func vc_chan_value_errChan(v *Error) bool { return v != nil }
+
+// C05 (c), release of the reader: when Stream returns after the reader was started, either the parser ended
+// cleanly (the event channel was closed, or the caller's context is done — the reader then leaves its select by
+// itself) or the context given to the reader has been cancelled. Otherwise the reader stays parked on the hand-off
+// of an event that nobody will take.
+var vcCancelled bool
+
+func vc_hook_callback_ok_cancel() { vcCancelled = true }
+
+func vc_Streamer_Stream_ensures_release(s *Streamer, ctx context.Context, sendTransaction SendTransactionFunc, res error, err *Error) bool {
+	return !vcReaderStarted || err == nil || vcCancelled
 }
